@@ -47,7 +47,7 @@ Proof.
   - apply teval_App in Hv. destruct Hv as [row [Hrow [Hsk Hpre]]]. apply teval_App.
     exists (map h row). split; [exact (mh_rows _ _ _ HH f row Hrow)|]. split.
     + rewrite skipn_map', Hsk. reflexivity.
-    + apply tevals_pre_hom; assumption.
+    + exact (tevals_pre_hom h A B s args IH row Hpre).
 Qed.
 
 Lemma tevals_hom : forall h A B, MHom h A B -> forall s ts row,
@@ -55,7 +55,8 @@ Lemma tevals_hom : forall h A B, MHom h A B -> forall s ts row,
 Proof.
   intros h A B HH s ts row [Hsk Hpre]. split.
   - rewrite skipn_map', Hsk. reflexivity.
-  - apply tevals_pre_hom; [|exact Hpre]. apply Forall_forall. intros t _ v. apply teval_hom. exact HH.
+  - apply (tevals_pre_hom h A B s ts); [|exact Hpre].
+    apply Forall_forall. intros t _ v. apply teval_hom. exact HH.
 Qed.
 
 Lemma atom_holds_hom : forall h A B, MHom h A B -> forall s a,
@@ -128,12 +129,6 @@ Qed.
 
 Definition FuncRel (M : model) (f : N) : Prop :=
   forall r1 r2, In r1 (rws M f) -> In r2 (rws M f) -> removelast r1 = removelast r2 -> r1 = r2.
-
-Fixpoint funcs_in (t : term) : list N :=
-  match t with
-  | App f args => f :: flat_map funcs_in args
-  | _ => []
-  end.
 
 Lemma split_row : forall (row : list N) n v, skipn n row = [v] -> row = firstn n row ++ [v].
 Proof. intros row n v H. rewrite <- H. symmetry. apply firstn_skipn. Qed.
